@@ -109,6 +109,11 @@ func (p *Parser) parseShowStatement() (ast.Statement, error) {
 			}
 			show.ObjectName = name
 		} else {
+			// the statement may end right here ("SHOW CREATE;"): the terminator
+			// is not an object type, and what follows it is another statement
+			if p.isType(models.TokenTypeSemicolon) || p.isType(models.TokenTypeEOF) {
+				return nil, p.expectedError("object type")
+			}
 			show.ShowType = "CREATE " + strings.ToUpper(p.currentToken.Literal)
 			p.advance()
 			name, err := p.parseQualifiedName()
